@@ -250,6 +250,9 @@ static int case_no;
  * sequence of the target after an absolute xmp_set_position; relative calls, restart, stop and
  * playback never change it */
 static int exp_seq;
+/* module generated without jumps, loops, breaks and tempo changes (pattern delays only): one pass
+ * of straight playback lasts exactly the duration the scan reports */
+static int linear_mod;
 
 static void track_setpos(int t)
 {
@@ -304,6 +307,30 @@ static void step_inject(int chn, int fxt, int fxp)
 	xmp_inject_event(X, chn, &e);
 }
 
+static int seek_cand(int seq, int t)
+{
+	int i;
+	for (i = C->m.mod.len - 1; i >= 0; i--)
+		if (C->m.mod.xxo[i] < C->m.mod.pat && C->p.sequence_control[i] == seq && C->m.xxo_info[i].time <= t)
+			return i;
+	return -1;
+}
+
+/* a control call executed as a step (no frame rendered after it): leaves a reposition pending */
+static void step_call(const char *what, int a)
+{
+	fprintf(O, "s %s %d\n", what, a);
+	if (!strcmp(what, "next"))
+		xmp_next_position(X);
+	else if (!strcmp(what, "prev"))
+		xmp_prev_position(X);
+	else if (!strcmp(what, "seek")) {
+		if (seek_cand(C->p.sequence, a) < 0)
+			track_setpos(0);
+		xmp_seek_time(X, a);
+	}
+}
+
 static void step_plain(const char *what)
 {
 	fprintf(O, "s %s\n", what);
@@ -322,7 +349,7 @@ static void do_case(int op, int arg)
 	char pre[512], post[512], aft[512];
 	int ret = 0, rc, failed = 0;
 	int pre_ord = p->ord, pre_pos = p->pos, pre_seq = exp_seq, pending = p->ord != p->pos;
-	int seq_real = p->sequence;
+	int seq_real = p->sequence, pre_delay = p->flow.delay;
 	int len = mod->len, marker = HAS_QUIRK(QUIRK_MARKER) ? 1 : 0;
 	const char *cls = "unconstrained";
 	int i;
@@ -520,6 +547,26 @@ static void do_case(int op, int arg)
 			 * wrapped-around visit count of 0 (storlek_11.it): a fresh xmp_start_player reports 1 there too */
 			if (fi.loop_count != 0 && !(p->scan[pre_seq].num == 0 && t == p->scan[pre_seq].ord && 0 == p->scan[pre_seq].row))
 				FAIL("loop:xmp_restart_module", "restart: loop count %d in the first frame", fi.loop_count);
+			if (!linear_mod && mid_seen && !mid_clean)
+				FAIL("flow:xmp_restart_module", "restart: a delay/break/jump/loop of the abandoned row is still pending when row 0 is read");
+			if (linear_mod && !failed) {
+				/* duration: the pass that starts with this frame must last what the scan reported */
+				double sum = p->frame_time;
+				int n = 1;
+				snprintf(cur_what, sizeof cur_what, "restart_module+pass");
+				alarm(60);
+				while (n < 200000 && xmp_play_frame(X) == 0 && p->loop_count == 0) {
+					sum += p->frame_time;
+					n++;
+				}
+				alarm(0);
+				fprintf(O, "s pass %d\n", n);
+				if (sum - p->scan[pre_seq].time > 1.5 || sum - p->scan[pre_seq].time < -1.5)
+					FAIL("duration:xmp_restart_module", "restart (pre delay=%d): the next pass rendered %d frames = %.1f ms, reported duration %d ms",
+					     pre_delay, n, sum, p->scan[pre_seq].time);
+				if (mid_seen && !mid_clean)
+					FAIL("flow:xmp_restart_module", "restart: a delay/break/jump/loop of the abandoned row is still pending when row 0 is read");
+			}
 		}
 		break; }
 	case OP_STOP:
@@ -591,7 +638,9 @@ static void gen_cases(int thorough, int ncases)
 		}
 		step_play(after_start ? vrng_range(0, 3) : vrng_chance(70) ? vrng_range(0, 12) : vrng_range(0, 90));
 		/* pending flow state: injected jump / break / pattern delay / pattern loop / row delay */
-		if (mod->chn > 0 && vrng_chance(45)) {
+		if (linear_mod && vrng_chance(50))
+			r = 92;		/* restart, followed by the duration oracle */
+		if (mod->chn > 0 && vrng_chance(45) && !linear_mod) {
 			int c = vrng_below(mod->chn), w = vrng_below(7);
 			switch (w) {
 			case 0: step_inject(c, FX_JUMP, vrng_below(len > 0 ? len : 1)); break;
@@ -610,6 +659,16 @@ static void gen_cases(int thorough, int ncases)
 			fprintf(O, "s setpos %d\n", t);
 			xmp_set_position(X, t);
 			track_setpos(t);
+		}
+		if (r >= 62 && r < 76 && vrng_chance(35) && len > 0) {
+			/* xmp_set_row back to back with another position call: the row must survive the reposition */
+			switch (vrng_below(5)) {
+			case 0: { int t = vrng_below(len); fprintf(O, "s setpos %d\n", t); xmp_set_position(X, t); track_setpos(t); break; }
+			case 1: step_call("next", 0); break;
+			case 2: step_call("prev", 0); break;
+			case 3: { int tm = m->xxo_info[vrng_below(len)].time; step_call("seek", tm < 0 ? 0 : tm); break; }
+			case 4: step_plain("restart"); break;
+			}
 		}
 		/* choose the call */
 		if (r < 34) {
@@ -673,6 +732,8 @@ static void gen_cases(int thorough, int ncases)
 static int open_module(const char *path)
 {
 	int rc;
+	const char *bn = strrchr(path, '/');
+	linear_mod = strncmp(bn ? bn + 1 : path, "lin", 3) == 0;
 	X = xmp_create_context();
 	C = (struct context_data *)X;
 	snprintf(cur_what, sizeof cur_what, "load");
@@ -733,6 +794,10 @@ static int run_script(const char *path, const char *script)
 			step_inject(a, b, c);
 		else if (!strcmp(w, "restart"))
 			step_plain("restart");
+		else if (!strcmp(w, "next") || !strcmp(w, "prev") || !strcmp(w, "seek"))
+			step_call(w, a);
+		else if (!strcmp(w, "pass"))
+			;	/* rendered by the restart case of a linear module itself */
 		else if (!strcmp(w, "endplayer"))
 			;	/* emitted by the start_player case itself */
 		else if (!strcmp(w, "setpos")) {
